@@ -121,6 +121,44 @@ Theorem C14_typeparams : forall cx r i,
 Proof. exact typeparams_spec. Qed.
 Print Assumptions C14_typeparams.
 
+(* Derived accessors (beyond the strings the property enumerates: "describes the interfaces
+   faithfully" read as consistency of the data with itself): HasParams / HasReturns /
+   ReturnStatement / IsVariadic agree with the parameter and result lists and with the "..."
+   carried by ArgList and ArgCallList; ReturnsError is true iff some result's type string is
+   "error" - in particular when a result is the predeclared error; by C14_denote that string
+   denotes the predeclared error whenever var_guard holds (nothing shadows it), so a result
+   that merely IMPLEMENTS error - a pointer to os.PathError, net.Error, a pointer to a local NotFound, an interface
+   embedding error - does not set it; AcceptsContext iff the first parameter's type string is
+   "context.Context".  (The comparison is on the type STRING, as in the code: a package-level
+   type named `error` rendered in-package would also set ReturnsError - not exercised.) *)
+Theorem C14_flags : forall d,
+  (has_params d = true <-> dparams d <> []) /\
+  (has_returns d = true <-> dreturns d <> []) /\
+  (return_statement d = B "return" <-> dreturns d <> []) /\
+  (is_variadic d = true <-> dparams d <> [] /\ dvariadic d = true) /\
+  (is_variadic d = true <-> existsb a_ell (arg_list d) = true) /\
+  (is_variadic d = true <-> existsb snd (arg_call_list d) = true) /\
+  (returns_error d = true <-> exists v, In v (dreturns d) /\ print_rty (vrty v) = B "error") /\
+  ((exists v, In v (dreturns d) /\ vty v = TNamed None (B "error") []) -> returns_error d = true) /\
+  (accepts_context d = true <-> exists v r, dparams d = v :: r /\ print_rty (vrty v) = B "context.Context").
+Proof. exact flags_spec. Qed.
+Print Assumptions C14_flags.
+
+(* The slicing accessors ArgCallListSlice / ArgCallListSliceNoEllipsis start end: in range
+   (start <= end' <= number of parameters, end' = the number of parameters for a negative end) the
+   result lists exactly the elements of index in [start, end') of ArgCallList / ArgCallListNoEllipsis
+   (so "..." appears only when the range reaches the variadic parameter); out of range the Go slice
+   expression panics (None), which text/template turns into a failed render. *)
+Theorem C14_slices : forall d s e (ell : bool),
+  let n := length (dparams d) in
+  let e' := eff_end n e in
+  let full := if ell then arg_call_list d else arg_call_list_no_ellipsis d in
+  (s <= e' <= n -> exists l, arg_call_list_slice d s e ell = Some l /\ length l = e' - s /\
+                             forall i, i < e' - s -> nth_error l i = nth_error full (s + i)) /\
+  (~ (s <= e' <= n) -> arg_call_list_slice d s e ell = None).
+Proof. exact slice_spec. Qed.
+Print Assumptions C14_slices.
+
 (* ------------------------------------------------------------------------------------ *)
 (* Where the property does NOT hold of the faithful model (known findings)               *)
 (* ------------------------------------------------------------------------------------ *)
